@@ -484,8 +484,9 @@ class MonteCarloGFormula:
 
             # updating lagged variables
             if lags is not None:
-                for k, v in lags.items():
-                    g[v] = g[k]
+                lagged = {v: g[k].copy() for k, v in lags.items()}  # every lag reads this interval's values
+                for v in lagged:
+                    g[v] = lagged[v]
 
             # stacking simulated data in a list
             if low_memory:  # Only stacking when censored or failed
